@@ -75,4 +75,39 @@ theorem py_validate_eq_model (cfg : Cfg) (n : Negotiated) (theirs : OpenMsg) :
           simp only [this, Bool.false_eq_true, if_false, if_neg h4]
           exact hms n.multisession
 
+/-! ## The scalar part of `Negotiated._negotiate`
+
+`Generated/PyNego.lean` also holds the slice of `_negotiate` that computes the scalar fields (hold time, asn4,
+operational, the two AS numbers, the route-refresh flavour, the message size, link-local next hop), translated
+statement by statement; what it reads of the two OPENs are inputs named by their source text.  They are
+instantiated here with what `capSet` of the model holds: `caps.announced(code)` is "the entry is there",
+`caps.get(FOUR_BYTES_ASN)` is an `ASN` exactly when it is there. -/
+
+def Refresh.code : Refresh → Int
+  | .absent => 1 | .normal => 2 | .enhanced => 4
+
+/-- the scalar fields of the model's result as the state of the translated method -/
+def scalarsOf (n : Negotiated) : NegotiatingSt :=
+  { holdtime := n.hold, asn4 := n.asn4, operational := n.operational, local_as := n.localAs, peer_as := n.peerAs,
+    refresh := n.refresh.code, msg_size := n.msgSize, linklocal_nexthop := n.linkLocal }
+
+/-- **`_negotiate` as translated from /repo computes the scalar fields of `negotiateSets`**, for every pair of
+    capability sets, AS-number fields and hold times, from the state `Negotiated.__init__` leaves
+    (refresh ABSENT, message size 4096). -/
+theorem py_negotiate_scalars_eq_model (oursAs oursHold theirsAs theirsHold : Nat) (s r : CapSet) (st0 : NegotiatingSt)
+    (hr : st0.refresh = PyNego.refreshAbsent) (hm : st0.msg_size = PyNego.initialSize) :
+    PyNego.Negotiating.negotiate_scalars st0 oursHold theirsHold oursAs theirsAs
+        ((s.asn4.getD 0 : Nat) : Int) ((r.asn4.getD 0 : Nat) : Int) s.asn4.isSome r.asn4.isSome
+        s.asn4.isSome r.asn4.isSome s.operational r.operational s.enhanced r.enhanced s.refresh r.refresh
+        s.extMsg r.extMsg s.linkLocal r.linkLocal =
+      .ret () (scalarsOf (negotiateSets oursAs oursHold theirsAs theirsHold s r)) := by
+  have hmin : (min (oursHold : Int) (theirsHold : Int)) = ((min oursHold theirsHold : Nat) : Int) := by omega
+  have htr : ((theirsAs : Int) == 23456) = decide (theirsAs = asTrans) := by
+    unfold asTrans; by_cases h : theirsAs = 23456 <;> simp [h] <;> omega
+  unfold PyNego.Negotiating.negotiate_scalars scalarsOf negotiateSets
+  simp only [hr, hm, PyNego.refreshAbsent, PyNego.initialSize, hmin, htr]
+  cases hs4 : s.asn4 <;> cases hr4 : r.asn4 <;> cases s.enhanced <;> cases r.enhanced <;> cases s.refresh <;>
+    cases r.refresh <;> cases s.extMsg <;> cases r.extMsg <;> by_cases ht : theirsAs = asTrans <;>
+    simp [ht, Refresh.code, initialSize, extendedSize, Bool.and_comm]
+
 end Exa.Open
